@@ -58,6 +58,9 @@ def inputs():
         # all, the report lists every task of the project, in declaration order
         "dup-ids": render.render({"resources": R, "tasks": [T("a", 90), T("b", 60, deps=["a"]), T("a", 45, "r2", name="a again"),
                                                             {"id": "g", "children": [T("x", 30), T("x", 20, "r2", name="x again")]}]}).encode(),
+        # a valid project that defines no task at all: the report is empty (header only / "data": []), the run succeeds
+        "no-tasks": render.render({"resources": R, "tasks": []}).encode(),
+        "only-milestones": render.render({"resources": R, "tasks": [{"id": "m1", "milestone": True}, {"id": "g", "children": [{"id": "m2", "milestone": True, "deps": ["m1"]}]}]}).encode(),
         "utf8": render.render({"resources": [{"id": "r1", "name": "Zoë Müller"}], "tasks": [T("a", 90, name="Grüße – 設計"), T("b", 30, deps=["a"], name="naïve")]}).encode("utf-8"),
     }
     return out
